@@ -40,6 +40,7 @@ fn main() {
         "crash" => seq::engine_crash(cases, &mut out),
         "free" => seq::engine_free(&rt, cases, &mut out),
         "trans" => seq::engine_trans(cases, &mut out),
+        "sidecar_order" => seq::engine_sidecar_order(cases, &mut out),
         "logconc" => seq::engine_logconc(cases, &mut out),
         "cachediff" => seq::engine_cachediff(cases, &mut out),
         "overtake" => seq::engine_overtake(&rt, cases, &mut out),
